@@ -244,6 +244,8 @@ class Q:
         self.c = (Fraction(c[0]) if isc(c[0]) else (_pn(c[0]) if isp(c[0]) else c[0]),
                   Fraction(c[1]) if isc(c[1]) else (_pn(c[1]) if isp(c[1]) else c[1]))
         self.m = m or {}
+        if self.m and isc(self.c[0]) and isc(self.c[1]) and self.c[0] == 0 and self.c[1] == 0:
+            self.m = {}  # zero has no monomial
 
     # -- construction -------------------------------------------------------
     @staticmethod
